@@ -812,6 +812,10 @@ def corpus_c20(tier, seed, rnd):
                               "params": {"cfg": {"backend": backend, "dtype": dtype, "seed": sd + seed,
                                                  "epochs": 2, "seed_type": ["int", "np.int64", "np.uint32"][k % 3]}}})
                 k += 1
+            # a proposal written to a file once and read back for each of the two runs
+            specs.append({"id": f"f{k:04d}", "builder": "flow_pair",
+                          "params": {"cfg": {"backend": backend, "dtype": dtype, "seed": 7 + seed, "epochs": 1, "from_file": True}}})
+            k += 1
     return specs
 
 
